@@ -249,6 +249,8 @@ pub struct App {
     /// log of application-visible history (for C04 / C20 comparisons)
     pub history: Vec<String>,
     pub record_history: bool,
+    /// while set, reads are postponed (streams are remembered and read once it is cleared)
+    pub hold_reads: bool,
 }
 
 fn sid_u64(id: StreamId) -> u64 {
@@ -276,6 +278,7 @@ impl App {
             events_seen: 0,
             dgram_send_buf: None,
             pending_reads: Default::default(),
+            hold_reads: false,
             raw_events: Vec::new(),
             history: vec![],
             record_history: false,
@@ -673,6 +676,10 @@ impl App {
         if !self.cfg.read_enabled {
             return;
         }
+        if self.hold_reads {
+            self.pending_reads.insert(sid_u64(id));
+            return;
+        }
         let sid = sid_u64(id);
         let pol = self.policy(sid);
         let pair = self.pair;
@@ -711,6 +718,21 @@ impl App {
         let pol = pol;
         led.flow(pair, writer_client, sid).unordered = !pol.ordered;
         let conn_closed = conn.is_closed();
+        // "blind" stop: some stopping readers give up on their 1st..3rd wake-up without reading
+        // anything (whatever has arrived by then - data, FIN, a reset - is still unread)
+        if let Some((after, code)) = pol.stop_after {
+            if after < 1500 && job.read == 0 && job.calls as u64 >= 1 + after % 3 {
+                let r = conn.recv_stream(id).stop(VarInt::from_u64(code).unwrap());
+                if r.is_ok() {
+                    led.flow(pair, writer_client, sid).recv_stop = Some(code);
+                    led.cnt.inc("app.stop");
+                    led.cnt.inc("app.blind_stop");
+                }
+                job.done = true;
+                self.pending_reads.remove(&sid);
+                return;
+            }
+        }
         let mut rs = conn.recv_stream(id);
         let mut chunks = match rs.read(pol.ordered) {
             Ok(c) => c,
@@ -996,7 +1018,7 @@ impl App {
 
     /// Continue reads that stopped on their chunk budget. Returns whether anything was done.
     pub fn poll_pending(&mut self, conn: &mut Connection, led: &mut Ledger) -> bool {
-        if self.pending_reads.is_empty() {
+        if self.pending_reads.is_empty() || self.hold_reads {
             return false;
         }
         let ids: Vec<u64> = self.pending_reads.iter().copied().collect();
